@@ -9,7 +9,7 @@ class C03(Check):
     id = 'C03'
     module = 'Xrl.Props.C03'
     namespace = 'Xrl.C03'
-    extra_modules = [('Xrl.Props.C03b', 'Xrl.C03'), ('Xrl.Props.C03c', 'Xrl.C03')]
+    extra_modules = [('Xrl.Props.C03b', 'Xrl.C03'), ('Xrl.Props.C03c', 'Xrl.C03'), ('Xrl.Props.C03d', 'Xrl.C03'), ('Xrl.Props.C03e', 'Xrl.C03')]
     functions = None
     assumptions = ['contract theorems exist for the functions that have a specification theorem (accessors, line energies/rates, spline sites, totals); '
                    'the other exported numeric functions are covered by the contract oracle on the real library and by the correspondence run only',
@@ -25,128 +25,339 @@ class C03(Check):
         ls = self.lines(ctx)
         return ls + [l[:-1] + 'N' for l in ls if l.endswith(' E')][::3]
 
-    def search(self, ctx):
-        ls = [l for l in self.lines(ctx) if l.endswith(' E')]
+    def judge(self, ctx, ls, exe, tag, viol, dist, nontriv, neg, pre_every=5):
+        """the contract on the lines `ls` (slot E): each also without a slot (N) and — every failing call, every `pre_every`-th successful one —
+        with a slot that already holds an error (P).  -> (calls made, successes)"""
         ln = [l[:-1] + 'N' for l in ls]
-        a = ctx.run_c(ls); b = ctx.run_c(ln)
-        viol = []; nontriv = set(); dist = {}; neg = {}
-        for l, x, y in zip(ls, a, b):
+        a = ctx.run_c(ls, exe=exe); b = ctx.run_c(ln, exe=exe)
+        pidx = []; succ = 0
+        for i, (l, x, y) in enumerate(zip(ls, a, b)):
             fn = l.split(' ')[0]
             p = core.parse_answer(x); q = core.parse_answer(y)
-            d = dist.setdefault(fn, [0, 0]); 
+            d = dist.setdefault(fn, [0, 0])
             if p['kind'] != 'ok' or q['kind'] != 'ok':
-                viol.append(dict(key=l, got=x, expected='a result (no abort)', what='call aborted')); continue
+                viol.append(dict(key=l + tag, got=x if p['kind'] != 'ok' else y, expected='a result (no abort)', what='call aborted' + (': an error was stored over an existing one inside ONE call' if 'overwrite' in x + y else ''))); continue
             v = p['vals'][0]
             if p['slot'] == 'E':
-                d[0] += 1; nontriv.add(l)
+                d[0] += 1; nontriv.add(l + tag); succ += 1
+                if i % pre_every == 0: pidx.append(i)
                 if isinstance(v, float) and not math.isfinite(v):
-                    viol.append(dict(key=l, got=x, expected='finite value', what='non-finite result without an error'))
-                elif apisweep.is_positive_quantity(fn) and v == 0:
-                    viol.append(dict(key=l, got=x, expected='non-zero or an error', what='positive quantity returned as 0 without an error'))
+                    viol.append(dict(key=l + tag, got=x, expected='finite value', what='non-finite result without an error'))
+                elif apisweep.is_positive_quantity(fn) and v == 0 and not any(t_ in TINY for t_ in l.split(' ')):
+                    viol.append(dict(key=l + tag, got=x, expected='non-zero or an error', what='positive quantity returned as 0 without an error'))
                 elif apisweep.is_positive_quantity(fn) and v < 0:
                     neg[fn] = neg.get(fn, 0) + 1        # observation, not a clause of C03 (e.g. spline undershoot of FF_Rayl at large q)
             else:
-                d[1] += 1
+                d[1] += 1; pidx.append(i)
                 m = re.fullmatch(r'F(\d+):(.+)', p['slot'], re.S)
                 if not m or int(m.group(1)) > 5 or v != 0:
-                    viol.append(dict(key=l, got=x, expected='sentinel 0 with one error (code 0..5, non-empty message)', what='malformed failure'))
+                    viol.append(dict(key=l + tag, got=x, expected='sentinel 0 with one error (code 0..5, non-empty message)', what='malformed failure'))
                 elif int(m.group(1)) != 1:
                     # "a meaningful code": every way a numeric function can fail is a bad argument or data that do not exist for the argument —
-                    # XRL_ERROR_INVALID_ARGUMENT in this library (the C++, Java and Python bindings map the code to an exception class)
-                    viol.append(dict(key=l, got=x, expected='error code 1 (XRL_ERROR_INVALID_ARGUMENT)', what='failure of a numeric function reported with another error code'))
+                    # XRL_ERROR_INVALID_ARGUMENT in this library (the C++, Java and Python bindings map the code to an exception class); see ERROR_CODES
+                    viol.append(dict(key=l + tag, got=x, expected='error code 1 (XRL_ERROR_INVALID_ARGUMENT)', what='failure of a numeric function reported with another error code'))
             # no slot: same value
             w = q['vals'][0]
             same = (v == w) or (isinstance(v, float) and isinstance(w, float) and math.isnan(v) and math.isnan(w))
             if not same or q['slot'] != 'N':
-                viol.append(dict(key=l, got='%s | without slot: %s' % (x, y), expected='identical value', what='passing no error slot changed the result'))
+                viol.append(dict(key=l + tag, got='%s | without slot: %s' % (x, y), expected='identical value', what='passing no error slot changed the result'))
+        # a slot that already holds an error: it still holds the SAME error afterwards (pointer, code, message), the returned number is the one
+        # the call returns with an empty slot, and the library's diagnostic appears exactly when the call failed
+        lp = [ls[i][:-1] + 'P' for i in pidx]
+        c = ctx.run_c(lp, exe=exe)
+        for i, z in zip(pidx, c):
+            l = ls[i]; p = core.parse_answer(a[i]); r_ = core.parse_answer(z)
+            if p['kind'] != 'ok': continue
+            m = re.fullmatch(r'P(\d):(\d+)', r_.get('slot', '')) if r_['kind'] == 'ok' else None
+            if not m:
+                viol.append(dict(key=l[:-1] + 'P' + tag, got=z, expected='a result (no abort)', what='call with a slot that already holds an error: aborted / malformed answer')); continue
+            v = p['vals'][0]; w = r_['vals'][0]; failed = p['slot'] != 'E'
+            same = (v == w) or (isinstance(v, float) and isinstance(w, float) and math.isnan(v) and math.isnan(w))
+            if m.group(1) != '1':
+                viol.append(dict(key=l[:-1] + 'P' + tag, got=z, expected='P1: the slot still holds the first error object, unchanged', what='a call replaced / changed an error that was already stored in the slot (no call stores an error over an existing one)'))
+            elif not same:
+                viol.append(dict(key=l[:-1] + 'P' + tag, got='%s | with an empty slot: %s' % (z, a[i]), expected='identical value', what='an error already present in the slot changed the result of the call'))
+            elif (int(m.group(2)) >= 1) != failed:
+                viol.append(dict(key=l[:-1] + 'P' + tag, got='%s | with an empty slot: %s' % (z, a[i]), expected='the overwrite diagnostic exactly when the call fails',
+                                 what='a successful call tried to store an error' if not failed else 'a failing call did not report its error to the occupied slot'))
+        return 2 * len(ls) + len(lp), succ, a, b
+
+    def search(self, ctx):
+        from props import c04 as C4
+        ls = [l for l in self.lines(ctx) if l.endswith(' E')]
+        viol = []; nontriv = set(); dist = {}; neg = {}
+        ncalls, _, a, b = self.judge(ctx, ls, None, '', viol, dist, nontriv, neg)
         stats = dict(rule='every exported numeric function of the generated dispatch (%d) x discrete arguments (all Z in [-3,125] / all macros for 1-2 argument functions, structured subsets + seeded values otherwise) '
-                          'x structured energies/angles, each call made with an empty slot and with NULL; non-trivial = successful calls' % len(dist),
-                     distinct_nontrivial=len(nontriv), negative_values_observed=neg, per_function_ok_err={k: v for k, v in sorted(dist.items())},
+                          'x structured energies/angles, each call made with an empty slot, with NULL, and (every failing call, every 5th successful one) with a slot that already holds an error; '
+                          'non-trivial = successful calls' % len(dist),
+                     negative_values_observed=neg, per_function_ok_err={k: v for k, v in sorted(dist.items())},
                      samples=[dict(call=ls[i], with_slot=a[i], without=b[i]) for i in (0, len(ls) // 2, len(ls) - 1)])
+        # ---- "negative and huge values": every double position at -0.0, denormals, 1e-30, 1e30, 1e100 (judged), and at 1e300, DBL_MAX, -1e300
+        #      (beyond about 1e150 keV the closed-form Klein-Nishina expressions overflow IEEE doubles: counted, not judged — DESIGN §2.1)
+        xl = [l for l in C4.extreme_double_lines(ctx) if l.endswith(' E')]
+        big = re.compile(r'x7e37e43c8800759c|x7fefffffffffffff|xfe37e43c8800759c')
+        xj = [l for l in xl if not big.search(l)]; xo = [l for l in xl if big.search(l)]
+        xdist = {}
+        n2, xs, _, _ = self.judge(ctx, xj, None, '', viol, xdist, nontriv, neg)
+        ncalls += n2
+        oa = ctx.run_c(xo); nf = {}
+        for l, x in zip(xo, oa):
+            p = core.parse_answer(x)
+            if p['kind'] != 'ok': viol.append(dict(key=l, got=x, expected='a result (no abort)', what='call aborted'))
+            elif p['slot'] == 'E' and isinstance(p['vals'][0], float) and not math.isfinite(p['vals'][0]): nf[l.split(' ')[0]] = nf.get(l.split(' ')[0], 0) + 1
+        ncalls += len(xo)
+        stats['extreme_doubles'] = dict(judged_calls=n2, judged_succeeded=xs, beyond_1e150_calls=len(xo), beyond_1e150_nonfinite_without_error=nf)
+        # ---- "edges +/- epsilon": every tabulated absorption edge of every element, the energy of the edge itself and one part in 1e9 to
+        #      either side, in every function of (Z, E), (Z, shell, E) and (Z, line, E)
+        el = self.edge_lines(ctx)
+        edist = {}
+        n3, es, _, _ = self.judge(ctx, el, None, '', viol, edist, nontriv, neg, pre_every=7)
+        ncalls += n3
+        stats['edge_energies'] = dict(calls=n3, succeeded=es, functions=len(edist))
+        xj = xj + el
         # ---- the functions that read the Kissel tables fail for every input in the shipped configuration: judge them once more on the table
         #      regenerated from data/kissel, where they succeed
         KRE = re.compile(r'Kissel|Photo_Total|Photo_Partial|^ElectronConfig$|^P[LM]\d_')
-        kls = [l for l in ls if KRE.search(l.split(' ')[0])]
-        nk = 0
+        kls = [l for l in ls + xj if KRE.search(l.split(' ')[0])]
+        suf = None
         if kls:
             try:
                 suf = ctx.build_kissel_config('real'); kexe = ctx.sc.path('cdrv' + suf)
-                ka = ctx.run_c(kls, exe=kexe); kb = ctx.run_c([l[:-1] + 'N' for l in kls], exe=kexe)
-                ksucc = 0
-                for l, x, y in zip(kls, ka, kb):
-                    fn = l.split(' ')[0]; p_ = core.parse_answer(x); q_ = core.parse_answer(y); nk += 2
-                    if p_['kind'] != 'ok' or q_['kind'] != 'ok':
-                        viol.append(dict(key=l + '  @real', got=x, expected='a result (no abort)', what='call aborted (regenerated Kissel table)')); continue
-                    v = p_['vals'][0]
-                    if p_['slot'] == 'E':
-                        ksucc += 1
-                        if isinstance(v, float) and not math.isfinite(v): viol.append(dict(key=l + '  @real', got=x, expected='finite value', what='non-finite result without an error'))
-                        elif apisweep.is_positive_quantity(fn) and v == 0: viol.append(dict(key=l + '  @real', got=x, expected='non-zero or an error', what='positive quantity returned as 0 without an error'))
-                    else:
-                        m_ = re.fullmatch(r'F(\d+):(.+)', p_['slot'], re.S)
-                        if not m_ or int(m_.group(1)) > 5 or v != 0: viol.append(dict(key=l + '  @real', got=x, expected='sentinel 0 with one error (code 0..5, non-empty message)', what='malformed failure'))
-                    w = q_['vals'][0]
-                    if not ((v == w) or (isinstance(v, float) and isinstance(w, float) and math.isnan(v) and math.isnan(w))) or q_['slot'] != 'N':
-                        viol.append(dict(key=l + '  @real', got='%s | without slot: %s' % (x, y), expected='identical value', what='passing no error slot changed the result'))
-                stats['kissel_regenerated'] = dict(calls=nk, succeeded=ksucc)
+                kdist = {}
+                nk, ksucc, _, _ = self.judge(ctx, kls, kexe, '  @real', viol, kdist, nontriv, neg)
+                ncalls += nk
+                stats['kissel_regenerated'] = dict(calls=nk, succeeded=ksucc, functions_never_successful=sorted(f for f, d in kdist.items() if d[0] == 0))
             except core.BuildError as ex:
                 viol.append(dict(key='regenerated-Kissel configuration', got=str(ex)[:300], expected='builds', what='data/kissel -> kissel_pe.dat -> prdata'))
-        on, ov, ost = self.object_api(ctx)
+        stats['distinct_nontrivial'] = len(nontriv)
+        on, ov, ost = self.object_api(ctx, suf)
         stats.update(ost)
-        stats['rule'] += '; plus the string / object API (formula parser, NIST and radionuclide lookups and lists, symbols, the 21 _CP functions and 3 refractive-index entry points, crystal lookups / copies / lists) ' \
-                         'on valid formulas, NIST names, garbage and NULL, at energies on both sides of every table end, each call with a slot and without'
-        return 2 * len(ls) + on + nk, (viol + ov)[:300], stats
+        stats['error_code_table'] = ERROR_CODES
+        stats['rule'] += '; the same functions with every double position at -0.0, denormals, 1e-30, 1e30, 1e100; the Kissel-dependent functions once more on the regenerated table; ' \
+                         'plus the string / object API through harness/c04heap.c (formula parser incl. formulas synthesised in C, add_compound_data, NIST and radionuclide lookups and lists, symbols, the 21 _CP functions ' \
+                         'and 3 refractive-index entry points, crystal lookups / copies / lists, the seven numeric crystal functions over a box of Miller indices, every F_H flag value and the ends of int, ' \
+                         'user crystal arrays with additions and file loads judged operation by operation, NULL at every pointer position, the error API, XRayInit, deprecated setters, c_abs/c_mul) ' \
+                         'on valid formulas, NIST names, garbage and NULL, at energies on both sides of every table end: each call with a slot, without, and with a slot that already holds an error; ' \
+                         'the overwrite diagnostic of the library is observed on the C stream stderr of every call; every failure is checked against the per-family table of admissible error codes'
+        return ncalls + on, (viol + ov)[:300], stats
 
-    def object_api(self, ctx):
+    def edge_lines(self, ctx):
+        """energies at the absorption edges the library itself reports (EdgeEnergy(Z, shell)), and 1e-9 relative to either side"""
+        from vlib.core import hx
+        meta = ctx.meta; thorough = ctx.tier == 'thorough'
+        q = ['EdgeEnergy %d %d N' % (Z, sh) for Z in range(1, 105) for sh in range(0, 28)]
+        edges = {}
+        for l, x in zip(q, ctx.run_c(q)):
+            p = core.parse_answer(x)
+            if p['kind'] == 'ok' and p['vals'][0] > 0:
+                _, Z, sh, _ = l.split(' '); edges.setdefault(int(Z), []).append((int(sh), p['vals'][0]))
+        sigs = dict(meta.get('untranslated', {})); sigs.update(meta['functions'])
+        f2 = []; f3 = []
+        for f in sorted(sigs):
+            fi = sigs[f]
+            if fi['static'] or fi['outs'] or fi['ret'] != 'double' or not fi['has_error'] or fi['file'] in ('pr_data.c', 'xrf_cross_sections_aux-private.c'): continue
+            ps = [(n, t) for n, t in fi['params'] if t in ('int', 'double')]
+            if any(t not in ('int', 'double', 'errpp') for _, t in fi['params']): continue
+            ts = [t for _, t in ps]
+            if ts == ['int', 'double'] and ps[0][0].lower() == 'z' and ps[1][0].lower() in ('e', 'energy', 'e0'): f2.append(f)
+            elif ts == ['int', 'int', 'double'] and ps[0][0].lower() == 'z' and ps[2][0].lower() in ('e', 'energy', 'e0'): f3.append((f, 'line' if 'line' in ps[1][0].lower() else 'shell'))
+        lines_of = {0: [-1, -2, -3, -6, 0, 1], 1: [-30, -34, 3], 2: [-60, -63, 3], 3: [-86, -89, -90, 2, 3]}       # a few lines of the K, L1, L2, L3 series and the group macros
+        out = []
+        Zs = list(edges) if thorough else [Z for Z in edges if Z % 3 == ctx.seed % 3 or Z in (1, 3, 11, 26, 47, 82, 92, 98)]
+        for Z in Zs:
+            for sh, E0 in edges[Z]:
+                if not thorough and sh > 8 and (Z + sh) % 4: continue
+                for E in (E0, E0 * (1 - 1e-9), E0 * (1 + 1e-9)):
+                    for f in f2: out.append('%s %d %s E' % (f, Z, hx(E)))
+                    for f, kind in f3:
+                        if kind == 'shell':
+                            for s2 in {sh, max(sh - 1, 0)}: out.append('%s %d %d %s E' % (f, Z, s2, hx(E)))
+                        elif sh in lines_of:
+                            for ln in lines_of[sh]: out.append('%s %d %d %s E' % (f, Z, ln, hx(E)))
+        return out
+
+    def object_api(self, ctx, ksuf=None):
         """the error contract on the functions that take strings / hand out objects (harness/c04heap.c)"""
         import os
         from props import c04 as C4
         from vlib import cbuild
         from vlib.core import REPO, VERIF
         exe = ctx.sc.path('c04heap')
+        lfl = ctx.cfl + ['-I' + os.path.join(REPO, 'src')] + C4.WRAP
         if not os.path.exists(exe):
-            cbuild.link(ctx.sc, ctx.objs, [os.path.join(VERIF, 'harness', 'c04heap.c')], exe, ctx.cfl + ['-I' + os.path.join(REPO, 'src')] + C4.WRAP)
-        allg = C4.heap_groups(ctx, ctx.sc.path('c03files'))
-        singles = [g[0] for g in allg if len(g) == 1 and not g[0].startswith(('err ', 'bfill '))]
+            cbuild.link(ctx.sc, ctx.objs, [os.path.join(VERIF, 'harness', 'c04heap.c')], exe, lfl)
+        fdir = ctx.sc.path('c03files')
+        allg = C4.heap_groups(ctx, fdir)
+        singles = [g[0] for g in allg if len(g) == 1 and not g[0].startswith(('err ', 'bfill ', 'cpdeep %d ' % C4.DEEP_OVERFLOW))]
         keep = [g for g in allg if len(g) == 1 and g[0].startswith('err ') and int(g[0].split(' ')[1]) >= 6]
-        groups = [[l] for l in singles] + [['N:' + l] for l in singles]
+        brackets = [g for g in allg if len(g) > 1]
+        nopre = ('misc ', 'cpdeep ', 'cplong ')
+        pre = [l for l in singles if not l.startswith(nopre)]
+        groups = [[l] for l in singles] + [['N:' + l] for l in singles] + [['P:' + l] for l in pre]
         res = C4.run_heap(ctx, exe, groups)
         kres = C4.run_heap(ctx, exe, keep)
-        def parse(a):
-            m = re.match(r'(-?\d+) d=(\S+) e=(\d) c=(-?\d+) m=(-?\d+) v=(\S+)', a)
-            return None if not m else dict(rc=int(m.group(1)), e=int(m.group(3)), c=int(m.group(4)), m=int(m.group(5)), v=m.group(6))
-        viol = []; ok = fail = 0; kinds = {}
+        viol = []; ok = fail = 0; kinds = {}; codes = {}
         for i, g in enumerate(keep):
             got, died = kres.get(i, ([], 'not run'))
             if died is not None or not got or not got[0].startswith('1 '):
                 viol.append(dict(key=g[0], got=(got[0] if got else str(died)[-200:]), expected='1: the slot still holds the first error object, unchanged',
                                  what='a later failing call replaced / changed an error that was already stored in the slot (no call stores an error over an existing one)'))
-        n = len(singles)
+        n = len(singles); pidx = {l: 2 * n + j for j, l in enumerate(pre)}
+        def answer(i):
+            got, died = res.get(i, ([], 'not run'))
+            if died is not None or not got: return None, str(died)[-200:]
+            return C4.parse_heap(got[0]), got[0]
         for i, l in enumerate(singles):
-            (ga, da), (gb, db) = res.get(i, ([], 'not run')), res.get(n + i, ([], 'not run'))
-            if da is not None or db is not None or not ga or not gb:
-                viol.append(dict(key=l, got=str(da or db)[-200:], expected='a result (no abort)', what='call aborted')); continue
-            a, b = parse(ga[0]), parse(gb[0])
+            (a, ra), (b, rb) = answer(i), answer(n + i)
             if a is None or b is None:
-                viol.append(dict(key=l, got=ga[0] + ' | ' + gb[0], expected='an answer', what='malformed answer')); continue
+                viol.append(dict(key=l, got=(ra if a is None else rb), expected='a result (no abort)', what='call aborted / malformed answer')); continue
             op = l.split(' ')[0]; kinds[op] = kinds.get(op, 0) + 1
             num = a['v'].startswith('x')
             val = unhx(a['v']) if num else None
+            if a['ow'] or b['ow']:
+                viol.append(dict(key=l, got=ra if a['ow'] else rb, expected='at most one error stored by one call',
+                                 what='the library reported "xrl_error set over the top of a previous xrl_error": an error was stored over an existing one inside ONE call'))
             if a['e']:
                 fail += 1
-                if a['rc'] != 0 or not (0 <= a['c'] <= 5) or a['m'] <= 0 or (num and val != 0):
-                    viol.append(dict(key=l, got=ga[0], expected='sentinel 0 / NULL with one error (code 0..5, non-empty message)', what='malformed failure'))
-                elif a['c'] != 1:
-                    viol.append(dict(key=l, got=ga[0], expected='error code 1 (XRL_ERROR_INVALID_ARGUMENT): no file, allocation or capacity failure is involved in this call', what='failure reported with another error code'))
+                adm = admissible_codes(l, fdir)
+                codes[a['c']] = codes.get(a['c'], 0) + 1
+                if (a['rc'] != 0 and op not in ('null',)) or not (0 <= a['c'] <= 5) or a['m'] <= 0 or (num and val != 0):
+                    viol.append(dict(key=l, got=ra, expected='sentinel 0 / NULL with one error (code 0..5, non-empty message)', what='malformed failure'))
+                elif a['c'] not in adm:
+                    viol.append(dict(key=l, got=ra, expected='error code in %s (%s)' % (sorted(adm), ', '.join(CODE_NAMES[c] for c in sorted(adm))), what='failure reported with an error code that this function may not use here (see error_code_table)'))
             else:
                 ok += 1
                 if num and not math.isfinite(val):
-                    viol.append(dict(key=l, got=ga[0], expected='finite value', what='non-finite result without an error'))
-                positive = op in ('cp', 'nistn', 'nisti', 'radn', 'radi', 'z2s', 's2z', 'cget', 'ccopy', 'nistl', 'radl', 'clist', 'ri', 'af') or (op == 'cfun' and int(l.split(' ')[1]) in (0, 4, 5)) or (op == 'cscp' and int(l.split(' ')[1]) < 13)
-                if positive and a['rc'] == 0:
-                    viol.append(dict(key=l, got=ga[0], expected='a non-NULL object / non-zero value, or an error', what='0 / NULL returned without an error'))
+                    viol.append(dict(key=l, got=ra, expected='finite value', what='non-finite result without an error'))
+                if is_positive_op(l) and a['rc'] == 0:
+                    viol.append(dict(key=l, got=ra, expected='a non-NULL object / non-zero value, or an error', what='0 / NULL returned without an error'))
+                if op == 'null':
+                    exp = C4.NULL_EXPECT.get(int(l.split(' ')[1]))
+                    if exp and ((exp[0] is not None and a['rc'] != exp[0]) or exp[1] != 0):
+                        viol.append(dict(key=l, got=ra, expected='rc=%s e=%d (the documented behaviour for a NULL argument)' % (exp[0], exp[1]), what='NULL pointer argument: not the documented behaviour'))
+                if op == 'misc' and a['rc'] != 1:
+                    viol.append(dict(key=l, got=ra, expected='rc=1', what='auxiliary function (XRayInit / deprecated setters / c_abs, c_mul / xrl_strdup, xrl_strndup, xrl_malloc / xrl_error_matches, xrl_error_copy): wrong result'))
+            if op == 'null' and a['e']:
+                exp = C4.NULL_EXPECT.get(int(l.split(' ')[1]))
+                if exp and (exp[1] != 1 or a['rc'] != exp[0]):
+                    viol.append(dict(key=l, got=ra, expected='rc=%s e=%d (the documented behaviour for a NULL argument)' % (exp[0], exp[1]), what='NULL pointer argument: not the documented behaviour'))
             if b['e'] or b['rc'] != a['rc'] or b['v'] != a['v']:
-                viol.append(dict(key=l, got='%s | without slot: %s' % (ga[0], gb[0]), expected='identical result', what='passing no error slot changed the result'))
-        return 2 * n, viol, dict(object_api=dict(calls=2 * n, succeeded=ok, failed=fail, kinds=kinds))
+                viol.append(dict(key=l, got='%s | without slot: %s' % (ra, rb), expected='identical result', what='passing no error slot changed the result'))
+            if l in pidx:
+                c, rc_ = answer(pidx[l])
+                if c is None:
+                    viol.append(dict(key='P:' + l, got=rc_, expected='a result (no abort)', what='call with a slot that already holds an error: aborted / malformed answer')); continue
+                if c['p'] != 1:
+                    viol.append(dict(key='P:' + l, got=rc_, expected='p=1: the slot still holds the first error object, unchanged', what='a call replaced / changed an error that was already stored in the slot (no call stores an error over an existing one)'))
+                elif c['rc'] != a['rc'] or c['v'] != a['v']:
+                    viol.append(dict(key='P:' + l, got='%s | with an empty slot: %s' % (rc_, ra), expected='identical result', what='an error already present in the slot changed the result of the call'))
+                elif (c['ow'] >= 1) != bool(a['e']) and not (op == 'null' and int(l.split(' ')[1]) in (21, 22, 23)):
+                    viol.append(dict(key='P:' + l, got='%s | with an empty slot: %s' % (rc_, ra), expected='the overwrite diagnostic exactly when the call fails',
+                                     what='a successful call tried to store an error' if not a['e'] else 'a failing call did not report its error to the occupied slot'))
+        ncalls = len(groups) + len(keep)
+        # ---- user crystal arrays: every operation of every bracket judged (constructor -> non-NULL or one error; additions / loads -> 1 or one error),
+        #      and the whole bracket once more WITHOUT a slot: the same sequence of results
+        bn = [['N:' + l for l in g] for g in brackets]
+        bres = C4.run_heap(ctx, exe, brackets + bn)
+        nb = len(brackets); bops = 0; bfail = 0
+        for i, g in enumerate(brackets):
+            (got, died), (gotn, diedn) = bres.get(i, ([], 'not run')), bres.get(nb + i, ([], 'not run'))
+            if died is not None or diedn is not None:
+                viol.append(dict(key=' ; '.join(g), got=str(died or diedn)[-200:], expected='a result (no abort)', what='call history over a user crystal array aborted')); continue
+            refused = False
+            for l, x, y in zip(g, got, gotn):
+                bops += 2
+                if x == 'bad-op' and refused: continue
+                a, b = C4.parse_heap(x), C4.parse_heap(y)
+                key = '%s   [in: %s]' % (l, ' ; '.join(g)[:400])
+                if a is None or b is None:
+                    viol.append(dict(key=key, got=x + ' | ' + y, expected='an answer', what='malformed answer')); continue
+                op = l.split(' ')[0]; kinds[op] = kinds.get(op, 0) + 1
+                if op == 'ainit' and a['rc'] == 0: refused = True
+                if a['ow'] or b['ow']:
+                    viol.append(dict(key=key, got=x if a['ow'] else y, expected='at most one error stored by one call', what='an error was stored over an existing one inside ONE call (overwrite diagnostic of the library)'))
+                if a['e']:
+                    bfail += 1; adm = admissible_codes(l, fdir); codes[a['c']] = codes.get(a['c'], 0) + 1
+                    if a['rc'] != 0 or not (0 <= a['c'] <= 5) or a['m'] <= 0:
+                        viol.append(dict(key=key, got=x, expected='0 / NULL with one error (code 0..5, non-empty message)', what='malformed failure'))
+                    elif a['c'] not in adm:
+                        viol.append(dict(key=key, got=x, expected='error code in %s (%s)' % (sorted(adm), ', '.join(CODE_NAMES[c] for c in sorted(adm))), what='failure reported with an error code that this function may not use here (see error_code_table)'))
+                elif op in ('ainit', 'aadd', 'aread', 'aget', 'ahold') and a['rc'] == 0:
+                    viol.append(dict(key=key, got=x, expected='a non-NULL object / 1, or an error', what='0 / NULL returned without an error'))
+                if b['e'] or b['rc'] != a['rc']:
+                    viol.append(dict(key='N:' + key, got='%s | without slot: %s' % (x, y), expected='identical result', what='passing no error slot changed the result'))
+        ncalls += bops
+        st = dict(calls=ncalls, succeeded=ok, failed=fail, kinds=kinds, prefilled_slot_calls=len(pre), bracket_ops=bops, bracket_failures=bfail, error_codes_seen={CODE_NAMES.get(k, str(k)): v for k, v in sorted(codes.items())})
+        # ---- the _CP functions over the Kissel tables succeed only on the regenerated configuration
+        if ksuf:
+            kexe = ctx.sc.path('c04heap' + ksuf)
+            if not os.path.exists(kexe):
+                kobjs = [x for x in ctx.objs if not x.endswith('xrayglob_inline.c.o')] + [ctx.sc.path('o_san', 'xrayglob_inline_%s.c.o' % ksuf)]
+                cbuild.link(ctx.sc, kobjs, [os.path.join(VERIF, 'harness', 'c04heap.c')], kexe, lfl)
+            kl = [l for l in singles if re.match(r'cscp (8|9|10|11) ', l)]
+            kr = C4.run_heap(ctx, kexe, [[l] for l in kl] + [['N:' + l] for l in kl] + [['P:' + l] for l in kl])
+            ks = 0
+            for i, l in enumerate(kl):
+                xs = []
+                for j in (i, len(kl) + i, 2 * len(kl) + i):
+                    got, died = kr.get(j, ([], 'not run'))
+                    xs.append((C4.parse_heap(got[0]) if got and died is None else None, got[0] if got else str(died)[-200:]))
+                (a, ra), (b, rb), (c, rc_) = xs
+                if a is None or b is None or c is None:
+                    viol.append(dict(key=l + '  @real', got=[r for m_, r in xs if m_ is None][0], expected='a result (no abort)', what='call aborted (regenerated Kissel table)')); continue
+                val = unhx(a['v'])
+                if a['ow'] or b['ow']: viol.append(dict(key=l + '  @real', got=ra, expected='at most one error stored by one call', what='an error was stored over an existing one inside ONE call'))
+                if a['e']:
+                    if a['rc'] != 0 or a['c'] != 1 or a['m'] <= 0 or val != 0: viol.append(dict(key=l + '  @real', got=ra, expected='sentinel 0 with one error (code 1, non-empty message)', what='malformed failure'))
+                else:
+                    ks += 1
+                    if not math.isfinite(val): viol.append(dict(key=l + '  @real', got=ra, expected='finite value', what='non-finite result without an error'))
+                    elif val == 0: viol.append(dict(key=l + '  @real', got=ra, expected='a non-zero value, or an error', what='0 returned without an error'))
+                if b['e'] or b['v'] != a['v']: viol.append(dict(key=l + '  @real', got='%s | without slot: %s' % (ra, rb), expected='identical result', what='passing no error slot changed the result'))
+                if c['p'] != 1 or c['v'] != a['v'] or (c['ow'] >= 1) != bool(a['e']):
+                    viol.append(dict(key='P:' + l + '  @real', got='%s | with an empty slot: %s' % (rc_, ra), expected='slot untouched, identical value, diagnostic iff failure', what='a slot that already holds an error changed the behaviour of the call'))
+            ncalls += 3 * len(kl); st['kissel_cp'] = dict(calls=3 * len(kl), succeeded=ks)
+        return ncalls, viol, dict(object_api=st)
+
+
+# ---------------------------------------------------------------------------------------------------------------------------------
+# "a meaningful code": which error codes a function may legitimately use (the bindings map the code to an exception class:
+# MEMORY -> MemoryError / std::bad_alloc, INVALID_ARGUMENT -> ValueError / std::invalid_argument, IO -> IOError, RUNTIME -> RuntimeError …)
+CODE_NAMES = {0: 'XRL_ERROR_MEMORY', 1: 'XRL_ERROR_INVALID_ARGUMENT', 2: 'XRL_ERROR_IO', 3: 'XRL_ERROR_TYPE', 4: 'XRL_ERROR_UNSUPPORTED', 5: 'XRL_ERROR_RUNTIME'}
+ERROR_CODES = {
+    'numeric API (every function of xraylib.h / xrf_cross_sections_aux.h that returns a number; Atomic_Factors, Bragg_angle, Q_scattering_amplitude, Crystal_F_H_StructureFactor[_Partial], Crystal_UnitCellVolume, Crystal_dSpacing)':
+        'XRL_ERROR_INVALID_ARGUMENT only: no allocation, file or capacity is involved',
+    '_CP functions, Refractive_Index*, CompoundParser, SymbolToAtomicNumber, AtomicNumberToSymbol':
+        'XRL_ERROR_INVALID_ARGUMENT (bad formula / element / energy / density); XRL_ERROR_MEMORY only when an allocation fails',
+    'GetCompoundDataNISTByName/ByIndex/List, GetRadioNuclideDataByName/ByIndex/List, Crystal_GetCrystal, Crystal_MakeCopy, Crystal_GetCrystalsList':
+        'XRL_ERROR_INVALID_ARGUMENT (unknown name, index out of range, NULL); XRL_ERROR_MEMORY only when an allocation fails',
+    'Crystal_ArrayInit': 'XRL_ERROR_INVALID_ARGUMENT (negative capacity); XRL_ERROR_MEMORY (capacity that cannot be allocated)',
+    'Crystal_AddCrystal': 'XRL_ERROR_INVALID_ARGUMENT (NULL crystal, name already present); XRL_ERROR_RUNTIME (built-in collection full); XRL_ERROR_MEMORY (growth / copy fails)',
+    'Crystal_ReadFile': 'XRL_ERROR_IO (NULL / unreadable file, malformed content, premature end); XRL_ERROR_INVALID_ARGUMENT (a name of the file is already present / occurs twice); '
+                        'XRL_ERROR_RUNTIME (built-in collection full); XRL_ERROR_MEMORY (allocation fails)',
+    'any function': 'XRL_ERROR_TYPE and XRL_ERROR_UNSUPPORTED are never used by the C library',
+}
+
+def admissible_codes(line, fdir):
+    """-> set of error codes the operation `line` of harness/c04heap.c may report when NO allocation is made to fail"""
+    t = line.split(' '); op = t[0]
+    if op == 'aread': return {1, 2}          # content / open errors: IO; a name already present or occurring twice: INVALID_ARGUMENT
+    if op == 'null' and t[1] == '0': return {2}
+    if op == 'ainit':
+        n = int(t[1]); return {1} if n < 0 else {0}
+    if op == 'bfill': return {5}
+    return {1}
+
+# arguments at which a positive quantity legitimately UNDERFLOWS to 0 (SF_Compt(Z, q = 5e-324), Refractive_Index_Im at density 5e-324 …): IEEE
+# underflow, like the overflow beyond 1e150 keV — finiteness and the error contract are judged there, "never 0 without an error" is not
+TINY = (core.hx(5e-324), core.hx(1e-310), core.hx(2.2250738585072014e-308))
+
+def is_positive_op(l):
+    t = l.split(' '); op = t[0]
+    if any(x in TINY for x in t): return False
+    if op in ('cp', 'nistn', 'nisti', 'radn', 'radi', 'z2s', 's2z', 'cget', 'ccopy', 'nistl', 'radl', 'clist', 'ri', 'af', 'cpdeep', 'cplong', 'acd'): return True
+    if op == 'cfun': return int(t[1]) in (0, 4, 5)
+    if op == 'cscp': return int(t[1]) < 17            # the four polarised ones are only non-negative (C03d: nonneg_DCSP_Thoms)
+    return False
 
 CHECK = C03()
